@@ -140,11 +140,29 @@ FORBIDDEN = re.compile(r"\b(Admitted|admit|Axiom|Axioms|Parameter|Parameters|Con
                        r"Unset\s+Guard|bypass_check|Admit\s+Obligations|type-in-type|impredicative-set)\b")
 
 
-def scan_forbidden():
-    """No admits/axioms/guard switches anywhere in the development (comments stripped).
-    Variable/Hypothesis are only allowed inside Sections (checked textually)."""
+def dep_cone(vfiles):
+    """Transitive closure of `From Verif Require Import a.b` dependencies (as .v paths relative to coq/)."""
+    seen, todo = [], list(vfiles)
+    while todo:
+        f = todo.pop()
+        if f in seen or not os.path.exists(os.path.join(COQ, f)):
+            continue
+        seen.append(f)
+        txt = re.sub(r"\(\*.*?\*\)", "", open(os.path.join(COQ, f)).read(), flags=re.S)
+        for m in re.finditer(r"From\s+Verif\s+Require\s+(?:Import\s+|Export\s+)?(.*?)\.(?:\s|$)", txt, flags=re.S):
+            for mod in m.group(1).split():
+                todo.append(mod.replace(".", "/") + ".v")
+        for m in re.finditer(r"(?<!Verif )Require\s+(?:Import\s+|Export\s+)?((?:Verif\.[\w.']+\s*)+?)\.(?:\s|$)", txt, flags=re.S):
+            for mod in m.group(1).split():
+                todo.append(mod[len("Verif."):].replace(".", "/") + ".v")
+    return sorted(seen)
+
+
+def scan_forbidden(files=None):
+    """No admits/axioms/guard switches in the given files (default: whole development; comments
+    stripped).  Variable/Hypothesis are only allowed inside Sections (checked textually)."""
     bad = []
-    for f in coq_files():
+    for f in (files if files is not None else coq_files()):
         txt = open(os.path.join(COQ, f)).read()
         txt = re.sub(r"\(\*.*?\*\)", "", txt, flags=re.S)
         for i, line in enumerate(txt.splitlines(), 1):
@@ -174,6 +192,15 @@ def build_model(name, extract_v, module, deps=None):
         if not ok:
             return None, log
     d = os.path.join(BUILD, "extract", name)
+    exe = os.path.join(d, name + "model")
+    h = hashlib.sha1()
+    for f in dep_cone([extract_v]) + ["../ml/driver.ml"]:
+        h.update(f.encode())
+        h.update(open(os.path.join(COQ, f), "rb").read())
+    key = h.hexdigest()
+    keyfile = os.path.join(d, ".conehash")
+    if os.path.exists(exe) and os.path.exists(keyfile) and open(keyfile).read() == key:
+        return exe, "model unchanged (cone hash %s): reusing extracted binary" % key[:10]
     shutil.rmtree(d, ignore_errors=True)
     os.makedirs(d)
     shutil.copy(os.path.join(COQ, extract_v), os.path.join(d, "Extract.v"))
@@ -184,11 +211,11 @@ def build_model(name, extract_v, module, deps=None):
     modcap = module[0].upper() + module[1:]
     open(os.path.join(d, "main.ml"), "w").write(
         "module D = Driver.Make (%s)\nlet () = D.main ()\n" % modcap)
-    exe = os.path.join(d, name + "model")
     rc, out2 = sh(["ocamlfind", "ocamlopt", "-w", "-a", "-O3", "-inline", "100",
                    module + ".mli", module + ".ml", "driver.ml", "main.ml", "-o", exe], cwd=d, timeout=900)
     if rc != 0:
         return None, out + out2
+    open(keyfile, "w").write(key)
     return exe, out + out2
 
 
@@ -198,7 +225,7 @@ def run_model(exe, cases_path, timeout=3000, shards=None):
     lines = open(cases_path, "rb").read().split(b"\n")
     if lines and lines[-1] == b"":
         lines.pop()
-    if len(lines) < 2000:
+    if len(lines) < 200:
         shards = 1
     chunk = (len(lines) + shards - 1) // shards if lines else 1
     procs = []
@@ -234,19 +261,25 @@ def run_model(exe, cases_path, timeout=3000, shards=None):
 # ---------------------------------------------------------------------------------------------
 # harness
 
-def build_harness(name):
+def build_harness(name, tags="verif", out=None, extra_flags=None):
     """Rebuild harness/<name> from the CURRENT /repo working tree with hooks on (tag verif).
-    The module file is generated so that github.com/itchyny/gojq resolves to REPO."""
+    Each build uses its own -modfile (build/mod/<out>.mod + .sum) so that concurrent checks, possibly
+    against different trees ($VERIF_REPO), never write the same go.mod/go.sum."""
     h = os.path.join(ROOT, "harness")
-    shutil.copy(os.path.join(REPO, "go.sum"), os.path.join(h, "go.sum"))
+    out = out or ("harness-" + name)
+    md = os.path.join(BUILD, "mod")
+    os.makedirs(md, exist_ok=True)
+    modfile = os.path.join(md, out + ".mod")
     gomod = ("module verifharness\n\ngo 1.24.0\n\nrequire github.com/itchyny/gojq v0.0.0\n\n"
              "replace github.com/itchyny/gojq => %s\n" % REPO)
-    p = os.path.join(h, "go.mod")
-    if not os.path.exists(p) or open(p).read() != gomod:
-        open(p, "w").write(gomod)
-    exe = os.path.join(BUILD, "harness-" + name)
-    rc, out = sh(["go", "build", "-tags", "verif", "-o", exe, "./" + name], cwd=h, env=go_env(), timeout=1200)
-    return (exe if rc == 0 else None), out
+    open(modfile, "w").write(gomod)
+    shutil.copy(os.path.join(REPO, "go.sum"), os.path.join(md, out + ".sum"))
+    if not os.path.exists(os.path.join(h, "go.mod")):
+        open(os.path.join(h, "go.mod"), "w").write(gomod)      # only marks the module root; not read
+    exe = os.path.join(BUILD, out)
+    cmd = ["go", "build", "-modfile=" + modfile, "-tags", tags] + (extra_flags or []) + ["-o", exe, "./" + name]
+    rc, out_ = sh(cmd, cwd=h, env=go_env(), timeout=1800)
+    return (exe if rc == 0 else None), out_
 
 
 def run_harness(prog, stream, seed, n, tier, extra=None, timeout=3000, name=None):
@@ -308,7 +341,7 @@ class Check:
     # -- proofs ------------------------------------------------------------------------------
     def prove(self, props_file, deps=None, timeout=3000):
         """Build deps, then compile the props file and record one obligation per Theorem in it."""
-        bad = scan_forbidden()
+        bad = scan_forbidden(dep_cone([props_file] + list(deps or [])))
         if bad:
             self.obligations.append(("no-admits-no-axioms scan", False, None))
             self.broken_obligation("forbidden-constructs", "\n".join(bad[:20]))
@@ -436,7 +469,7 @@ def write_replay(prop, v, seed, also):
     return path
 
 
-def compare_model(check, exe, cases_path, stream, describe=None, max_report=5, nontrivial=None, spec=False):
+def compare_model(check, exe, cases_path, stream, describe=None, max_report=5, nontrivial=None, spec=False, count=True):
     """Run extracted model over harness lines. Every non-'ok' verdict is a mismatch impl != model
     (or impl != spec when spec=True: lines are wrapped as (spec <line>)).
     Returns list of (line, verdict)."""
@@ -455,7 +488,7 @@ def compare_model(check, exe, cases_path, stream, describe=None, max_report=5, n
         check.broken_correspondence(stream, None, "model produced %d verdicts for %d cases" % (len(outs), len(lines)))
         return mism
     for l, o in zip(lines, outs):
-        if not spec:
+        if not spec and count:
             check.note_case(l, nontrivial(l) if nontrivial else True)
         if o != "ok":
             mism.append((l, o))
